@@ -24,8 +24,10 @@ vars == <<body, done>>
 
 Txt(s) == [k |-> "text", v |-> s, expr |-> "", conv |-> "", has |-> FALSE, spec |-> <<>>]
 Fld(e, c, has, sp) == [k |-> "field", v |-> "", expr |-> e, conv |-> c, has |-> has, spec |-> sp]
-Ok(parts, pos) == [err |-> "", parts |-> parts, pos |-> pos]
-Err(kind, pos) == [err |-> kind, parts |-> <<>>, pos |-> pos]
+\* log = the expression texts of the fields closed so far, in closing order: the implementation parses an expression the
+\* moment its field is closed, so a malformed expression is reported before any later scanning error
+Ok(parts, pos, log) == [err |-> "", parts |-> parts, pos |-> pos, log |-> log]
+Err(kind, pos, log) == [err |-> kind, parts |-> <<>>, pos |-> pos, log |-> log]
 
 IsBlank(s) == s \in {" "}
 \* expression.trim().is_empty() on the characters collected so far
@@ -36,84 +38,86 @@ Cat(cs) == IF cs = <<>> THEN "" ELSE cs[1] \o Cat(Tail(cs))
 At(cs, i) == IF i <= Len(cs) THEN cs[i] ELSE "EOF"
 Opener(c) == CASE c = ")" -> "(" [] c = "]" -> "[" [] c = "}" -> "{"
 
-RECURSIVE Field(_, _, _, _, _, _, _, _, _), FStr(_, _, _, _, _), SpecScan(_, _, _, _, _), Str(_, _, _, _)
+RECURSIVE Field(_, _, _, _, _, _, _, _, _, _), FStr(_, _, _, _, _, _), SpecScan(_, _, _, _, _, _), Str(_, _, _, _, _)
 
-\* a string literal inside the expression: from the opening quote at i-1 (already consumed) to the closing one
-\* returns the index after the closing quote, or 0 when the input ends first (single-quoted form; the alphabet has no
-\* triple quotes)
-Str(cs, i, q, acc) ==
-  IF i > Len(cs) THEN [pos |-> 0, text |-> acc]
-  ELSE IF cs[i] = q THEN [pos |-> i + 1, text |-> Append(acc, cs[i])]
-  ELSE Str(cs, i + 1, q, Append(acc, cs[i]))
+\* a string literal inside the expression: the opening quote (at i-1) has been consumed; a literal that opens with three
+\* quotes ends at the same three quotes.  need = number of closing quotes still wanted, run = closing quotes seen in a row.
+\* returns the index after the literal, or 0 when the input ends first
+Str(cs, i, need, run, acc) ==
+  IF run = need THEN [pos |-> i, text |-> acc]
+  ELSE IF i > Len(cs) THEN [pos |-> 0, text |-> acc]
+  ELSE Str(cs, i + 1, need, IF cs[i] = "'" THEN run + 1 ELSE 0, Append(acc, cs[i]))
+StrAt(cs, i) == IF At(cs, i) = "'" /\ At(cs, i + 1) = "'" THEN Str(cs, i + 2, 3, 0, <<"'", "'", "'">>) ELSE Str(cs, i, 1, 0, <<"'">>)
 
 \* parse_formatted_value: i is the index of the next character, the '{' has been consumed
-Field(cs, i, nested, expr, delims, conv, sd, trail, spec) ==
-  IF i > Len(cs) THEN Err("UnclosedLbrace", i)
+Field(cs, i, nested, expr, delims, conv, sd, trail, spec, log) ==
+  IF i > Len(cs) THEN Err("UnclosedLbrace", i, log)
   ELSE LET ch == cs[i]
            nx == At(cs, i + 1) IN
   IF ch \in {"!", "=", ">", "<"} /\ nx = "="
-    THEN Field(cs, i + 2, nested, expr \o <<ch, "=">>, delims, conv, sd, trail, spec)
+    THEN Field(cs, i + 2, nested, expr \o <<ch, "=">>, delims, conv, sd, trail, spec, log)
   ELSE IF ch = "!" /\ delims = <<>>                                            \* (nx # "=" here)
-    THEN IF AllBlank(expr) THEN Err("EmptyExpression", i)
-         ELSE IF nx = "EOF" THEN Err("UnclosedLbrace", i)
-         ELSE IF nx \notin {"s", "a", "r"} THEN Err("InvalidConversionFlag", i)
-         ELSE IF At(cs, i + 2) \notin {"}", ":"} THEN Err("UnclosedLbrace", i)
-         ELSE Field(cs, i + 2, nested, expr, delims, nx, sd, trail, spec)
+    THEN IF AllBlank(expr) THEN Err("EmptyExpression", i, log)
+         ELSE IF nx = "EOF" THEN Err("UnclosedLbrace", i, log)
+         ELSE IF nx \notin {"s", "a", "r"} THEN Err("InvalidConversionFlag", i, log)
+         ELSE IF At(cs, i + 2) \notin {"}", ":"} THEN Err("UnclosedLbrace", i, log)
+         ELSE Field(cs, i + 2, nested, expr, delims, nx, sd, trail, spec, log)
   ELSE IF ch = "=" /\ delims = <<>>                                            \* (nx # "=" here)
-    THEN Field(cs, i + 1, nested, expr, delims, conv, TRUE, trail, spec)
+    THEN IF AllBlank(expr) THEN Err("EmptyExpression", i, log)
+         ELSE Field(cs, i + 1, nested, expr, delims, conv, TRUE, trail, spec, log)
   ELSE IF ch = ":" /\ delims = <<>>
-    THEN LET r == SpecScan(cs, i + 1, nested, <<>>, "") IN
-         IF r.err # "" THEN r ELSE Field(cs, r.pos, nested, expr, delims, conv, sd, trail, [has |-> TRUE, parts |-> r.parts])
-  ELSE IF ch \in {"(", "{", "["}
-    THEN Field(cs, i + 1, nested, Append(expr, ch), Append(delims, ch), conv, sd, trail, spec)
+    THEN LET r == SpecScan(cs, i + 1, nested, <<>>, "", log) IN
+         IF r.err # "" THEN r ELSE Field(cs, r.pos, nested, expr, delims, conv, sd, trail, [has |-> TRUE, parts |-> r.parts], r.log)
+  ELSE IF ch \in {"(", "{", "["} /\ ~sd
+    THEN Field(cs, i + 1, nested, Append(expr, ch), Append(delims, ch), conv, sd, trail, spec, log)
   ELSE IF ch \in {")", "]"} \/ (ch = "}" /\ delims # <<>>)
-    THEN IF delims = <<>> THEN Err("Unmatched", i)
-         ELSE IF delims[Len(delims)] = Opener(ch) THEN Field(cs, i + 1, nested, Append(expr, ch), SubSeq(delims, 1, Len(delims) - 1), conv, sd, trail, spec)
-         ELSE Err("MismatchedDelimiter", i)
+    THEN IF delims = <<>> THEN Err("Unmatched", i, log)
+         ELSE IF delims[Len(delims)] = Opener(ch) THEN Field(cs, i + 1, nested, Append(expr, ch), SubSeq(delims, 1, Len(delims) - 1), conv, sd, trail, spec, log)
+         ELSE Err("MismatchedDelimiter", i, log)
   ELSE IF ch = "}"
-    THEN IF AllBlank(expr) THEN Err("EmptyExpression", i)
+    THEN IF AllBlank(expr) THEN Err("EmptyExpression", i, log)
          ELSE LET e == Cat(expr)
                   c == IF sd /\ conv = "" /\ ~spec.has THEN "r" ELSE conv
                   f == Fld(e, c, spec.has, spec.parts) IN
-              Ok(IF sd THEN <<Txt(e \o "="), Txt(Cat(trail)), f>> ELSE <<f>>, i + 1)
+              Ok(IF sd THEN <<Txt(e \o "="), Txt(Cat(trail)), f>> ELSE <<f>>, i + 1, Append(log, e))
   ELSE IF ch = "'"
-    THEN LET s == Str(cs, i + 1, "'", <<"'">>) IN
-         IF s.pos = 0 THEN Err("UnterminatedString", i)
-         ELSE Field(cs, s.pos, nested, expr \o s.text, delims, conv, sd, trail, spec)
+    THEN LET s == StrAt(cs, i + 1) IN
+         IF s.pos = 0 THEN Err("UnterminatedString", i, log)
+         ELSE Field(cs, s.pos, nested, expr \o s.text, delims, conv, sd, trail, spec, log)
   ELSE IF IsBlank(ch) /\ sd
-    THEN Field(cs, i + 1, nested, expr, delims, conv, sd, Append(trail, ch), spec)
-  ELSE IF ch = "\\" THEN Err("UnterminatedString", i)
-  ELSE IF sd THEN Err("UnclosedLbrace", i)
-  ELSE Field(cs, i + 1, nested, Append(expr, ch), delims, conv, sd, trail, spec)
+    THEN Field(cs, i + 1, nested, expr, delims, conv, sd, Append(trail, ch), spec, log)
+  ELSE IF ch = "\\" THEN Err("UnterminatedString", i, log)
+  ELSE IF sd THEN Err("UnclosedLbrace", i, log)
+  ELSE Field(cs, i + 1, nested, Append(expr, ch), delims, conv, sd, trail, spec, log)
 
 \* parse_spec: literal characters up to '}' (not consumed); a '{' hands the rest to the scanner one level deeper
-SpecScan(cs, i, nested, acc, piece) ==
-  IF i > Len(cs) THEN Ok(IF piece = "" THEN acc ELSE Append(acc, Txt(piece)), i)
+SpecScan(cs, i, nested, acc, piece, log) ==
+  IF i > Len(cs) THEN Ok(IF piece = "" THEN acc ELSE Append(acc, Txt(piece)), i, log)
   ELSE IF cs[i] = "{"
     THEN LET acc2 == IF piece = "" THEN acc ELSE Append(acc, Txt(piece))
-             r == FStr(cs, i, nested + 1, <<>>, "") IN
-         IF r.err # "" THEN r ELSE SpecScan(cs, r.pos, nested, acc2 \o r.parts, "")
-  ELSE IF cs[i] = "}" THEN Ok(IF piece = "" THEN acc ELSE Append(acc, Txt(piece)), i)
-  ELSE SpecScan(cs, i + 1, nested, acc, piece \o cs[i])
+             r == FStr(cs, i, nested + 1, <<>>, "", log) IN
+         IF r.err # "" THEN r ELSE SpecScan(cs, r.pos, nested, acc2 \o r.parts, "", r.log)
+  ELSE IF cs[i] = "}" THEN Ok(IF piece = "" THEN acc ELSE Append(acc, Txt(piece)), i, log)
+  ELSE SpecScan(cs, i + 1, nested, acc, piece \o cs[i], log)
 
 \* parse_fstring
-FStr(cs, i, nested, acc, piece) ==
-  IF nested >= 2 THEN Err("ExpressionNestedTooDeeply", i)
-  ELSE IF i > Len(cs) THEN Ok(IF piece = "" THEN acc ELSE Append(acc, Txt(piece)), i)
+FStr(cs, i, nested, acc, piece, log) ==
+  IF nested >= 2 THEN Err("ExpressionNestedTooDeeply", i, log)
+  ELSE IF i > Len(cs) THEN Ok(IF piece = "" THEN acc ELSE Append(acc, Txt(piece)), i, log)
   ELSE LET ch == cs[i] IN
   IF ch = "{" THEN
-       IF nested = 0 /\ At(cs, i + 1) = "{" THEN FStr(cs, i + 2, nested, acc, piece \o "{")
-       ELSE IF nested = 0 /\ i + 1 > Len(cs) THEN Err("UnclosedLbrace", i)
+       IF nested = 0 /\ At(cs, i + 1) = "{" THEN FStr(cs, i + 2, nested, acc, piece \o "{", log)
+       ELSE IF nested = 0 /\ i + 1 > Len(cs) THEN Err("UnclosedLbrace", i, log)
        ELSE LET acc2 == IF piece = "" THEN acc ELSE Append(acc, Txt(piece))
-                r == Field(cs, i + 1, nested, <<>>, <<>>, "", FALSE, <<>>, [has |-> FALSE, parts |-> <<>>]) IN
-            IF r.err # "" THEN r ELSE FStr(cs, r.pos, nested, acc2 \o r.parts, "")
+                r == Field(cs, i + 1, nested, <<>>, <<>>, "", FALSE, <<>>, [has |-> FALSE, parts |-> <<>>], log) IN
+            IF r.err # "" THEN r ELSE FStr(cs, r.pos, nested, acc2 \o r.parts, "", r.log)
   ELSE IF ch = "}" THEN
-       IF nested > 0 THEN Ok(IF piece = "" THEN acc ELSE Append(acc, Txt(piece)), i)
-       ELSE IF At(cs, i + 1) = "}" THEN FStr(cs, i + 2, nested, acc, piece \o "}")
-       ELSE Err("SingleRbrace", i)
-  ELSE FStr(cs, i + 1, nested, acc, piece \o ch)              \* (the alphabet has no backslash outside fields)
+       IF nested > 0 THEN Ok(IF piece = "" THEN acc ELSE Append(acc, Txt(piece)), i, log)
+       ELSE IF At(cs, i + 1) = "}" THEN FStr(cs, i + 2, nested, acc, piece \o "}", log)
+       ELSE Err("SingleRbrace", i, log)
+  ELSE FStr(cs, i + 1, nested, acc, piece \o ch, log)              \* (the alphabet has no backslash outside fields)
 
-Scan(cs) == FStr(cs, 1, 0, <<>>, "")
+Scan(cs) == FStr(cs, 1, 0, <<>>, "", <<>>)
 
 \* adjacent text pieces become one constant later (parse_strings); empty ones disappear
 RECURSIVE Merge(_)
@@ -143,5 +147,5 @@ PartsShape == done => LET r == Scan(body) IN r.err = "" =>
 
 \* a body with a quote cannot stand in a literal delimited by that quote: the alphabet's quote is ', the literal uses "
 EmitOK == (Emit /\ done) => LET r == Scan(body) IN
-             PrintT("REPLAY" \o ToJson([body |-> Cat(body), err |-> r.err, parts |-> IF r.err = "" THEN Clean(r.parts) ELSE <<>>]))
+             PrintT("REPLAY" \o ToJson([body |-> Cat(body), err |-> r.err, parts |-> IF r.err = "" THEN Clean(r.parts) ELSE <<>>, log |-> r.log]))
 =============================================================================
